@@ -11,8 +11,9 @@ cd "$S" || exit 2
 git diff -- htp > "$OUT/patch.diff"
 [ -s "$OUT/patch.diff" ] || { echo "empty patch"; exit 2; }
 DEMO=$(ls seed_demo.c seed_demo.cpp 2>/dev/null | head -1)
-cp "$DEMO" "$OUT/" ; cp seed_meta.json "$OUT/meta.json" 2>/dev/null
+cp "$DEMO" "$OUT/" ; cp seed_meta.json "$OUT/meta.json" 2>/dev/null; cp seed_build.sh "$OUT/" 2>/dev/null
 build_demo() {
+  if [ -f "$S/seed_build.sh" ]; then ( . "$S/seed_build.sh" ) 2>&1 | tail -3; return; fi   # optional: the demo needs its own link flags (must produce ./seed_demo_bin)
   if [ "${DEMO##*.}" = "cpp" ]; then g++ -D_GNU_SOURCE -I"$S" -I"$S/htp" "$DEMO" "$S/htp/.libs/libhtp.a" -lz -pthread -o seed_demo_bin 2>&1 | tail -3
   else gcc -std=gnu99 -D_GNU_SOURCE -I"$S" -I"$S/htp" "$DEMO" "$S/htp/.libs/libhtp.a" -lz -pthread -o seed_demo_bin 2>&1 | tail -3; fi
 }
